@@ -48,7 +48,8 @@ class Row(object):
         out = []
         for t, st in self.runs:
             for ch in t:
-                if out and unicodedata.category(ch) in ("Mn", "Me") and out[-1][1] == st:
+                # (a terminal puts a combining character into the cell of its base whatever rendition is current)
+                if out and unicodedata.category(ch) in ("Mn", "Me"):
                     out[-1] = (out[-1][0] + ch, st)
                 else:
                     out.append((ch, st))
